@@ -647,7 +647,9 @@ func (x *Exec) intrinsic(st *State, fr *Frame, resInstr ssa.Instruction, name st
 		r := mk(SBool, "errors_is", a.Tag, a.Val, b.Tag, b.Val)
 		st.assume(implies(and(eq(a.Tag, b.Tag), eq(a.Val, b.Val)), r))
 		st.assume(implies(and(eq(a.Tag, intLit(0)), not(eq(b.Tag, intLit(0)))), not(r)))
-		set(Scalar{r, types.Typ[types.Bool]})
+		rv := Scalar{r, types.Typ[types.Bool]}
+		st.events = append(st.events, &Event{Kind: "call", Name: "Is", Callee: x.funcValue(fn, nil), Args: args, Results: []Value{rv}, Index: len(st.events)})
+		set(rv)
 		return nil, true
 	case name == "github.com/gotid/god/lib/timex.Now", name == "github.com/gotid/god/lib/timex.Since":
 		// one reading of the monotone relative clock; Since(d) = reading - d
